@@ -386,7 +386,12 @@ impl<S: WebSocket, T: TimestampProvider> Task<S, T> {
                     break;
                 };
                 debug!("processing remaining message after closure {msg:?}");
-                self.process_message(msg, true).await.ok();
+                if matches!(self.process_message(msg, true).await, Ok(true)) {
+                    // The peer's `Close`: nothing can follow it. Do not wait for the peer to
+                    // tear down the transport as well; a peer that goes silent right after
+                    // its `Close` would keep this task around forever.
+                    break;
+                }
             }
         };
         futures_util::future::join(flush_and_close_sink, drain_source).await;
